@@ -225,5 +225,38 @@ def updateSnr (c : Chan α) (baud : α) (args : List α) : α × α × α :=
   let added := snrAdded args
   (snrSum c.snrLinDb baud added, c.snrNliDb, snrSum c.gsnrDb baud added)
 
+/-- what a receiver holds per channel: the raw figures recorded by `_calc_snr` (dB; signal bandwidth and 0.1 nm) and
+the reported ones (`osnr_ase`, `osnr_nli`, `snr`, `osnr_ase_01nm`, `snr_01nm`) -/
+structure TrxFig (α : Type) where
+  rawOsnr : α
+  rawNli : α
+  rawSnr : α
+  rawOsnr01 : α
+  rawSnr01 : α
+  osnr : α
+  nli : α
+  snr : α
+  osnr01 : α
+  snr01 : α
+
+/-- `Transceiver._calc_snr`: raw values recorded, reported values reset to the raw ones -/
+def TrxFig.calc (c : Chan α) (baud : α) : TrxFig α :=
+  let o := c.snrLinDb
+  let n := c.snrNliDb
+  let g := c.gsnrDb
+  { rawOsnr := o, rawNli := n, rawSnr := g, rawOsnr01 := optDb o baud, rawSnr01 := optDb g baud,
+    osnr := o, nli := n, snr := g, osnr01 := optDb o baud, snr01 := optDb g baud }
+
+/-- one `Transceiver.update_snr(*args)` call: every reported figure is recomputed from the RAW one
+("use raw_values so that the added SNR penalties are not cumulated"); `osnr_nli` is not touched -/
+def TrxFig.update (t : TrxFig α) (baud : α) (args : List α) : TrxFig α :=
+  let added := snrAdded args
+  { t with osnr := snrSum t.rawOsnr baud added, snr := snrSum t.rawSnr baud added,
+           osnr01 := snrSum t.rawOsnr01 refBw added, snr01 := snrSum t.rawSnr01 refBw added }
+
+/-- several `update_snr` calls on the same receiver with no propagation in between (automatic mode selection) -/
+def TrxFig.updates (t : TrxFig α) (baud : α) (calls : List (List α)) : TrxFig α :=
+  calls.foldl (fun t a => t.update baud a) t
+
 end
 end Gnpy.Spectrum
